@@ -18,6 +18,10 @@ def change_request(change_ip=False, change_port=True, extra_bits=0):
 
 def gen_tid(rng, magic):
     t = bytes(rng.getrandbits(8) for _ in range(12))
+    if not magic and rng.random() < 0.15:
+        # 16 bytes that read as DNS counts + a question (the whole request then also parses as a DNS query)
+        return rng.choice([bytes(16), bytes(8) + bytes(rng.getrandbits(8) for _ in range(8)),
+                           b"\x00\x01\x00\x00\x00\x00\x00\x00\x02ab\x00\x00\x01\x00\x01", b"\x00\x01\x00\x00\x00\x00\x00\x00\x01a\x00\x00\x01\x00\x01\x00"])
     return (MAGIC if magic else bytes(rng.getrandbits(8) for _ in range(4))) + t
 
 
